@@ -39,6 +39,17 @@ func genPure(t *rapid.T) Case {
 	n := rapid.IntRange(1, 40).Draw(t, "n")
 	c := Case{}
 	id := rapid.SampledFrom(append([]string{"zz"}, purePool...))
+	if rapid.IntRange(0, 4).Draw(t, "burst") == 0 {
+		// a burst of tasks that is drained again: the list grows far beyond its usual size and shrinks back
+		m := rapid.IntRange(30, 300).Draw(t, "burstN")
+		for i := 0; i < m; i++ {
+			c.Ops = append(c.Ops, Op{K: "addLast", ID: purePool[i%len(purePool)]})
+		}
+		left := rapid.IntRange(0, 40).Draw(t, "burstLeft")
+		for i := 0; i < m-left; i++ {
+			c.Ops = append(c.Ops, Op{K: rapid.SampledFrom([]string{"remove", "remove", "remove", "removeFirst", "removeLast"}).Draw(t, "drain"), Ref: purePool[(i*3)%len(purePool)]})
+		}
+	}
 	for i := 0; i < n; i++ {
 		k := rapid.SampledFrom([]string{"addFirst", "addLast", "addLast", "addAfter", "addAfter", "addBefore", "addBefore", "remove", "remove", "removeFirst", "removeLast", "filter", "get", "getFirst", "getLast"}).Draw(t, "k")
 		op := Op{K: k}
@@ -87,6 +98,29 @@ func genWorker(t *rapid.T) Case {
 			out = append(out, fresh())
 		}
 		return out
+	}
+	if rapid.IntRange(0, 4).Draw(t, "burst") == 0 {
+		// a burst of tasks that is worked off again
+		m := rapid.IntRange(30, 300).Draw(t, "burstN")
+		var burst []string
+		for i := 0; i < m; i++ {
+			id := fresh()
+			burst = append(burst, id)
+			c.Ops = append(c.Ops, Op{K: "addLast", ID: id})
+		}
+		left := rapid.IntRange(0, 40).Draw(t, "burstLeft")
+		byRelease := rapid.Bool().Draw(t, "burstRelease")
+		for i := 0; i < m-left; i++ {
+			if byRelease {
+				c.Ops = append(c.Ops, Op{K: "release", Status: "Success"})
+			} else {
+				ref := burst[i/2]
+				if i%2 == 1 {
+					ref = burst[m-1-i/2]
+				}
+				c.Ops = append(c.Ops, Op{K: "remove", Ref: ref})
+			}
+		}
 	}
 	for i := 0; i < n; i++ {
 		k := rapid.SampledFrom([]string{"addFirst", "addLast", "addLast", "addLast", "addAfter", "addAfter", "addBefore", "addBefore", "remove", "remove", "removeFirst", "removeLast", "filter", "get", "release", "release", "release", "release", "release"}).Draw(t, "k")
@@ -489,7 +523,7 @@ func runCase(c Case) (ev.Info, error) {
 	return info, nil
 }
 
-const rule = "histories of TaskQueue operations (addFirst/addLast/addAfter/addBefore/remove/removeFirst/removeLast/filter/get and handler results Success/Keep/Fail/Repeat with 0-3 head/after/tail tasks) compared with a slice model after every step; part purelist: queue not started, ids from a pool of 5 so duplicates occur; part worker: real worker goroutine parked in a handshake handler, unique ids, operations issued while the handler is running; the slices a result carries have spare capacity and are afterwards either scribbled over by the handler (must not affect the queue) or retained (later queue operations must not modify them). Non-trivial: an id-addressed operation hit an absent id, or a release carried head/after/tail tasks after the queue was mutated during the handler (worker), or a duplicate id was in play (purelist). Distinct = distinct operation sequences."
+const rule = "histories of TaskQueue operations (addFirst/addLast/addAfter/addBefore/remove/removeFirst/removeLast/filter/get and handler results Success/Keep/Fail/Repeat with 0-3 head/after/tail tasks) compared with a slice model after every step; 1 history in 5 begins with a burst of 30-300 added tasks that is drained again down to 0-40 (by id, from the ends, or by Success results); part purelist: queue not started, ids from a pool of 5 so duplicates occur; part worker: real worker goroutine parked in a handshake handler, unique ids, operations issued while the handler is running; the slices a result carries have spare capacity and are afterwards either scribbled over by the handler (must not affect the queue) or retained (later queue operations must not modify them). Non-trivial: an id-addressed operation hit an absent id, or a release carried head/after/tail tasks after the queue was mutated during the handler (worker), or a duplicate id was in play (purelist). Distinct = distinct operation sequences."
 
 func TestPureList(t *testing.T) {
 	ev.Main(t, ev.Spec[Case]{Property: "C05", Part: "purelist", Rule: rule, Gen: genPure, Run: runCase})
